@@ -2,15 +2,22 @@ package main
 
 // hx c19 — the consensus engine is thread-safe under concurrent blocks, confirms and mining (C19, PARTIAL).
 //
-//  1. lock-discipline FACTS (c19_scan.go): `access <var> <func> <r|w> <lockHeld> <entry>` op lines,
-//     regenerated from the source on every run and compared by the Lean driver with the committed
-//     table LemoModel/LockFacts.lean (`table-mismatch` on any difference).  Every variable whose
-//     discipline is broken is also reported as an oracle finding `c19/unlocked-access/<var>`.
-//  2. signer-cache model correspondence: `sb …` lines run the Lean interleaving model on schedules;
-//     the Go side answers from a line-by-line transliteration of SignBlock driven by the same schedule
-//     (c19_signer.go) — and, for sequential schedules, from the REAL consensus.SignBlock.
-//  3. runtime hammer (c19_hammer.go) in a CHILD process: SUPPORTING EVIDENCE, not proof.
-//     Thorough tier: the same hammer built with -race, DATA RACE reports canonicalised.
+//  1. lock-discipline FACTS (c19_scan.go): `guard <var> <lock|atomic|none>` and
+//     `access <var> <func> <r|w> <lockHeld> <entry>` op lines, regenerated from the source on every run
+//     and compared by the Lean driver with the committed table LemoModel/LockFacts.lean
+//     (`table-mismatch` on any difference, `access-end` checks completeness).  Every (variable, function)
+//     that reaches the variable without its lock from a real entry point is also an oracle finding
+//     `c19/unlocked-access/<var>/<func>`.
+//  2. signer model correspondence (c19_signer.go): `sign …` = the REAL consensus.SignBlock run alone from a
+//     preset cache state; `sched …` = a Go transliteration of SignBlock stepped by a schedule, against the
+//     Lean interleaving model.
+//  3. runtime (SUPPORTING EVIDENCE, not proof; results are counts + oracle findings, never op lines), each
+//     in a CHILD process because Go's `fatal error: concurrent map …` cannot be recovered:
+//       c19-hammer   one real engine hit from several goroutines, every emitted confirm checked, sequential replay
+//       c19-maprace  the store's unlocked public reader GetActDatabase against the engine's writers
+//       thorough tier: c19-hammer built with -race, DATA RACE reports canonicalised (c19_race.go).
+//     A timeout / a failed -race build is an inconclusive sample (counted), never a failure.
+//  `hx c19-genfacts -out DIR` regenerates LockFacts.lean (by hand, after an intended change of the facts).
 
 import (
 	"context"
@@ -70,7 +77,7 @@ func c19RunHammer(c *Ctx, exe, sub, mode string, rounds int, timeout time.Durati
 	cmd.Stdout = ef
 	tmp := filepath.Join(dir, "tmp") // node data directories of the child; removed even when it dies
 	os.MkdirAll(tmp, 0755)
-	cmd.Env = append(os.Environ(), "GORACE=halt_on_error=0 history_size=4", "TMPDIR="+tmp)
+	cmd.Env = append(os.Environ(), "GORACE=halt_on_error=0 history_size=7", "TMPDIR="+tmp)
 	runErr := cmd.Run()
 	ef.Close()
 	os.RemoveAll(tmp)
